@@ -4,6 +4,8 @@ Case lines
   `<id> c10|b10 <period> <input-hex>` LZ10CompressionFormat::compress   → `ok <hex> rt=ok`
   `<id> c13|b13 <period> <input-hex>` LZ13CompressionFormat::compress   → `ok <hex> rt=ok alloc=ok`
   (`c*`: judged against the C08/C09 clauses; `b*`: against the C10 size bounds)
+  `<id> e10|e13 <stream-hex>`         setup step of a second-use sequence (several lines with one id): LZ10 / LZ13
+      decompress of a usually malformed stream; printed like d10 / d13, judged only for "no panic"
   `<id> t10|t13 <kind> <n> s<seed>`   as `c*` on a generated input at the top of the domain (`genTop`): 2^24-1, 2^24-2,
       and 2^24, 2^24+1 where only "Ok or Err, no panic" is asked
   `<id> g10|g13 <kind> <r> <m> s<seed> <n>`  as `b*` on a generated periodic input: pattern `genPattern kind r m seed`
@@ -248,6 +250,12 @@ def family : Family where
       if kind == "d10" || kind == "d13" || kind == "f10" || kind == "f13" then
         let s := hexOrBad s
         ((), modelDecode kind false s, oracleDecode kind false s i)
+      else if kind == "e10" || kind == "e13" then
+        -- setup step of a second-use sequence (usually a failing decompress): only "no panic" is judged here,
+        -- the following steps of the same case id carry the property's oracle
+        let s := hexOrBad s
+        ((), modelDecode (if kind == "e10" then "d10" else "d13") false s,
+          if i.getD 1 "" == "panic" then "FAIL panic" else "ok setup")
       else if kind == "h10" || kind == "h13" || kind == "hf13" then
         -- same entry points, output printed as length + hash (expansions of 16 MiB and more)
         let base := if kind == "h10" then "d10" else if kind == "h13" then "d13" else "f13"
